@@ -44,6 +44,14 @@ NextMPmin == \E n \in 1..3, k \in 1..3, tag \in Tags :
                /\ c' = <<"flowmin", n, k, tag>>
                /\ LET normal == StatsBody("flow", n, tag) IN
                   Emit("MP", [MpReplyTree("flow", 0, tag) EXCEPT !.Body = [i \in 1..n |-> IF i = k THEN FlowStatsTree(<<>>, <<>>, tag + 50 + i) ELSE normal[i]]])
+\* frames the library decodes lossily (so they are outside C04 / C05) but must still own: ARP with hardware addresses longer than
+\* Ethernet's (hardware length 20)
+NextPX == \E tag \in Tags :
+            /\ c' = <<"arp20", tag>>
+            /\ LET arp == [T |-> "ARP", HWType |-> <<0, 32>>, ProtoType |-> <<8, 0>>, HWLength |-> <<20>>, ProtoLength |-> <<4>>, Operation |-> <<0, 1>>,
+                           HWSrc |-> V(tag, 20), IPSrc |-> V(tag + 1, 4), HWDst |-> V(tag + 2, 20), IPDst |-> V(tag + 3, 4)]
+                   eth == [P!EthEl("e", 0, 0, 0, <<8, 6>>, P!ArpEl("p", tag, 1), tag).tree EXCEPT !.Data = arp] IN
+               Emit("PX", [PacketInTree("arp", <<>>, tag) EXCEPT !.Data = eth])
 InnerMsg2(kind, tag) ==
   CASE kind \in SimpleKinds -> SimpleEl("in", kind, tag)
     [] kind = "flowmod" -> FlowModEl("in", tag % 5, <<MF("inf", DecMF(tag), tag, FALSE)>>, <<>>, tag)
@@ -112,6 +120,6 @@ BigFrame(shape) ==
 BigShapes == {"flowstats", "flowstats-instr", "overlong", "portdesc", "error", "hello", "flowmod", "groupmod", "pktout"}
 NextBIG == \E shape \in BigShapes : c' = <<shape>> /\ EmitBig(shape, BigFrame(shape))
 Init == c = <<>>
-Next == c = <<>> /\ CASE Family = "EB" -> NextEB [] Family = "SW" -> NextSW [] Family = "XO" -> NextXO [] Family = "PI" -> NextPI [] Family = "MP" -> (NextMP \/ NextMPmin) [] Family = "CT" -> NextCT [] Family = "BIG" -> NextBIG
+Next == c = <<>> /\ CASE Family = "EB" -> NextEB [] Family = "SW" -> NextSW [] Family = "XO" -> NextXO [] Family = "PI" -> NextPI [] Family = "MP" -> (NextMP \/ NextMPmin) [] Family = "CT" -> NextCT [] Family = "BIG" -> NextBIG [] Family = "PX" -> NextPX
 Spec == Init /\ [][Next]_c
 =============================================================================
